@@ -523,6 +523,13 @@ func vh_ipv4_cksum() {
 	b := IPv4(h)
 	vassert(b.CalculateChecksum() == vhRefSum(h, 0), "IPv4.CalculateChecksum is the RFC 1071 sum of the 20 header bytes")
 	vreach("ipv4-cksum")
+	// a header with options: the sum covers all HeaderLength() bytes (4 symbolic option bytes)
+	o := make([]byte, 24)
+	copy(o, h)
+	o[0] = 0x46
+	copy(o[20:], vnBytes("opts", 4))
+	vassert(IPv4(o).CalculateChecksum() == vhRefSum(o, 0), "with IP options the header checksum covers the options too")
+	vreach("ipv4-cksum-options")
 }
 
 func vh_udp_tcp_cksum() {
